@@ -1715,7 +1715,10 @@ class Stream(AbstractStream):
             if len(phases) == 1:
                 phase, = phases
                 self.phase = phase
-                self.mol.copy_like(other.imol[phase])
+                if self.chemicals is other.chemicals:
+                    self.mol.copy_like(other.imol[phase])
+                else:
+                    self._imol.copy_like(other._imol.get_phase(phase))
                 self._thermal_condition.copy_like(other._thermal_condition)
                 return
             else:
